@@ -119,8 +119,10 @@ def fam_c11(R, n):
         ref = shape.replace('(?&s0)', '(?u:%s)' % sub.replace('\\\\', '\\'))
         sub_src = sub.replace('\\\\', '\\')
         attrs = ['#[logos(utf8 = false)]', '#[logos(subpattern s0 = %s)]' % rust_str(sub_src)]
-        out.append(dict(family='c11-str-in-bytes', src=enum(attrs, ['#[regex(%s, priority = 3)] A,' % rust_bytes(shape.encode()), '#[regex(%s, priority = 2)] B,' % rust_bytes(ref.encode())]),
-                        meta=dict(pair=(0, 1), pattern=shape, reference=ref)))
+        if all(ord(ch) < 128 for ch in ref):
+            # (a byte-string literal turns every non-ASCII byte into a \xNN escape, so a non-ASCII reference cannot be written this way)
+            out.append(dict(family='c11-str-in-bytes', src=enum(attrs, ['#[regex(%s, priority = 3)] A,' % rust_bytes(shape.encode()), '#[regex(%s, priority = 2)] B,' % rust_bytes(ref.encode())]),
+                            meta=dict(pair=(0, 1), pattern=shape, reference=ref)))
         attrs2 = ['#[logos(subpattern s0 = %s)]' % rust_str(sub_src)]
         shape2 = '(?-u)' + shape
         ref2 = '(?-u)' + ref
@@ -401,7 +403,7 @@ def fam_c19(R, n_random):
     for p in ['(?&nope)', 'a(?&b)']:
         add(enum([], ['#[regex(%s)] A,' % rust_str(p)]), 'reject', 'undef_subpattern')
     # greedy dots at every depth
-    for p in ['.*a', 'a.*', 'a.+', '(a.*)b', 'a(.*b)?', '((.+))', 'x(?:y(?:z.*))', '(a|b.*)c', '(?s:.)*', 'a[^\\n]*', 'x(a(b(c.+)))?', '(.*)+a', 'a(?:.*b){2}', '(?-u:.)*a', '(?s-u:.)+', '(.)*x', '((.))+x', '(?:(.)*y)+']:
+    for p in ['.*a', 'a.*', 'a.+', '(a.*)b', 'a(.*b)?', '((.+))', 'x(?:y(?:z.*))', '(a|b.*)c', '(?s:.)*', 'a[^\\n]*', 'x(a(b(c.+)))?', '(.*)+a', 'a(?:.*b){2}', '(?-u:.)*a', '(?s-u:.)+', '(.)*x', '((.))+x', '(?:(.)*y)+', '(?R).*', '(?R:.+)x', 'a[^\\r\\n]*', '(?R-u:.)*z', '[^\\n]+q', '(?s).*']:
         add(enum([], ['#[regex(%s)] A,' % rust_str(p)]), 'reject', 'greedy')
         add(enum([], ['#[regex(%s, allow_greedy = true)] A,' % rust_str(p)]), 'noreject-greedy')
     add(enum(['#[logos(skip(".*x"))]'], ['#[token("b")] B,']), 'reject', 'greedy')
